@@ -8,8 +8,9 @@ Usage (never on /repo itself; the real repairs are separate `fix:` commits):
     rm -rf /root/scratch_repo
 
 Result when DESIGN.md was written: 440 passed (the 4 baseline always_fail tests fail
-as in the baseline), and the probes c02/c03/c12/c13/c14b/c15/c16 show the repaired
-behaviour.  Not yet trialled: F6, F11, F12, F13 (disk stores), F17, F18, F21, F22.
+as in the baseline), and the probes c02/c03/c12/c12b/c13/c14b/c15/c16/c19/c20/ts2 and
+yt/t1.yaml (5 failed = the five WRONG expectations, 8 passed) show the repaired
+behaviour.  Not yet trialled: F13 (disk stores), F15 (foreign enum members).
 """
 
 import pathlib
@@ -222,6 +223,103 @@ patch(
             self.add_bracket(threshold_low, self.rates[index])""",
     """            index = bisect.bisect_right(self.thresholds, threshold_low) - 1
             self.add_bracket(threshold_low, self.rates[index] if index >= 0 else 0)""",
+)
+
+# F6 to_average: one-bracket scales, non-zero first threshold
+patch(
+    "openfisca_core/taxscales/marginal_rate_tax_scale.py",
+    """            previous_rate = self.rates[0]
+
+            for threshold, rate in""",
+    """            previous_rate = self.rates[0]
+
+            if previous_threshold != 0:
+                average_tax_scale.add_bracket(previous_threshold, 0)
+
+            for threshold, rate in""",
+)
+patch(
+    "openfisca_core/taxscales/marginal_rate_tax_scale.py",
+    'average_tax_scale.add_bracket(float("Inf"), rate)',
+    'average_tax_scale.add_bracket(float("Inf"), self.rates[-1])',
+)
+
+# F11 variables-only shape: shortest periods first
+patch(
+    "openfisca_core/simulations/_build_from_variables.py",
+    "from openfisca_core import errors\n",
+    "from openfisca_core import errors, periods\n",
+)
+patch(
+    "openfisca_core/simulations/_build_from_variables.py",
+    "                for period, dated_value in dated_variable.items():\n",
+    "                for period, dated_value in sorted(\n                    dated_variable.items(),\n                    key=lambda item: _period_length_key(item[0]),\n                ):\n",
+)
+patch(
+    "openfisca_core/simulations/_build_from_variables.py",
+    "def _person_count(params: Variables) -> int:",
+    "def _period_length_key(period_like) -> tuple[int, int]:\n    period = periods.period(period_like)\n    return periods.unit_weight(period.unit), period.size\n\n\ndef _person_count(params: Variables) -> int:",
+)
+
+# F12 unknown entity next to known ones
+patch(
+    "openfisca_core/simulations/simulation_builder.py",
+    "            return self.build_from_variables(tax_benefit_system, params)\n        return None\n",
+    "            return self.build_from_variables(tax_benefit_system, params)\n\n        # Unknown entities are reported by ``build_from_entities``.\n        return self.build_from_entities(tax_benefit_system, input_dict)\n",
+)
+
+# F17 strings on disk
+patch(
+    "openfisca_core/data_storage/on_disk_storage.py",
+    "        array: t.Array[t.DTypeGeneric] = numpy.load(file)\n",
+    "        array: t.Array[t.DTypeGeneric] = numpy.load(file)\n\n        # Strings are stored as unicode (object arrays would need pickle).\n        if array.dtype.kind == \"U\":\n            array = array.astype(object)\n",
+)
+patch(
+    "openfisca_core/data_storage/on_disk_storage.py",
+    "        numpy.save(path, value)\n",
+    "        if value.dtype == object:\n            value = value.astype(str)\n        numpy.save(path, value)\n",
+)
+
+# F18 restore: counts from the stored id arrays
+patch(
+    "openfisca_core/tools/simulation_dumper.py",
+    """    population.ids = numpy.load(os.path.join(path, "id.npy"))
+
+    if population.entity.is_person:""",
+    """    population.ids = numpy.load(os.path.join(path, "id.npy"))
+    population.count = len(population.ids)
+
+    if population.entity.is_person:""",
+)
+patch(
+    "openfisca_core/tools/simulation_dumper.py",
+    "    population.count = max(population.members_entity_id) + 1\n",
+    "",
+)
+patch(
+    "openfisca_core/tools/simulation_dumper.py",
+    "        _restore_entity(population, entities_dump_dir)\n        population.count = person_count\n",
+    "        _restore_entity(population, entities_dump_dir)\n",
+)
+
+# F21 YAML runner: keep the array type when selecting an instance
+patch(
+    "openfisca_core/tools/test_runner.py",
+    "            actual_value = actual_value[entity_index]\n",
+    "            # Slicing keeps the array type (e.g. EnumArray) of the selection.\n            actual_value = actual_value[entity_index : entity_index + 1]\n",
+)
+
+# F22 dates rendered as ISO text
+patch("openfisca_web_api/handlers.py", "import dpath\n", "import datetime\n\nimport dpath\n")
+patch(
+    "openfisca_web_api/handlers.py",
+    "        elif variable.value_type == str:\n",
+    "        elif variable.value_type == datetime.date:\n            entity_result = str(result[entity_index])\n        elif variable.value_type == str:\n",
+)
+patch(
+    "openfisca_core/tracers/flat_trace.py",
+    "        if isinstance(value, numpy.ndarray):\n            return value.tolist()\n",
+    "        if isinstance(value, numpy.ndarray) and numpy.issubdtype(\n            value.dtype,\n            numpy.datetime64,\n        ):\n            return value.astype(numpy.dtype(str)).tolist()\n\n        if isinstance(value, numpy.ndarray):\n            return value.tolist()\n",
 )
 
 print("patched")
